@@ -53,6 +53,7 @@ def plan(tier, seed):
     for i in range(6):
         sh.append(['xord', i])
     sh.append(['dynnames'])
+    sh.append(['aliasing'])
     if tier == 'thorough':
         perms = list(itertools.permutations(range(4)))
         ois = sorted(set([0, (seed * 7 + 5) % 23 + 1]))
@@ -217,6 +218,42 @@ def run_shard(shard, tier, seed, acc):
         acc.sample({'history': 'all menu pairs x {&,|,^} under %r, then under each other ordering, then '
                                'again under %r' % (o1, o1)})
         return
+    if kind == 'aliasing':
+        # values handed out by / handed to the library must not stay connected to its internals
+        tt = TT(V3)
+        funcs = list(tt.all_functions())[::7]
+        for order0 in itertools.permutations(V3):
+            for ta in funcs:
+                for tb in funcs[::3]:
+                    lst = list(order0)
+                    f = OBDD(tt.dnf(ta), lst)
+                    before = (tt.of_node(f.root), str(f))
+                    # the caller goes on using its list
+                    lst.reverse()
+                    lst.append('zz')
+                    g = OBDD(tt.dnf(tb), list(order0))
+                    c2 = {'vars': V3, 'order': list(order0), 'f': [int(x) for x in ta], 'g': [int(x) for x in tb],
+                          'aliasing': 'ordering list mutated by the caller after construction'}
+                    acc.ev(1, 1)
+                    if (tt.of_node(f.root), str(f)) != before:
+                        acc.violation('caller-list-mutation-changes-obdd', c2, before[1], str(f))
+                        continue
+                    for sym, pf, of in OPS:
+                        r = call(of, f, g)
+                        want = tuple(pf(p, q) for p, q in zip(ta, tb))
+                        if r[0] != 'ok':
+                            acc.violation('apply-exception', dict(c2, op=sym), None, r[1:])
+                        else:
+                            check_obdd(tt, r[1], list(order0), want, acc, dict(c2, op=sym), 'apply')
+                    # variables() hands out a set: mutating it must not change later answers
+                    vs = f.variables()
+                    exp = set(vs)
+                    vs.add('zz')
+                    vs.update(g.variables())
+                    vs2 = f.variables()
+                    if vs2 != exp or vs2 != tt.support(ta):
+                        acc.violation('variables-result-aliased', c2, sorted(exp), sorted(vs2))
+        return
     if kind == 'dynnames':
         # variable names that are equal to, but not the same string objects as, the node labels
         base = ['v%d' % i for i in (1, 2, 3)]
@@ -296,6 +333,9 @@ def replay(art):
         of = [o for o in OPS if o[0] == c['op']][0][2]
         r = call(of, x, y)
         return {'violates': not (r[0] == 'exc' and r[1] == 'RuntimeError'), 'got': r[:2]}
+    if c.get('aliasing'):
+        run_shard(['aliasing'], 'quick', 0, acc)
+        return {'violates': acc.d['nviol'] > 0, 'detail': acc.d['violations'][:1]}
     if c.get('dynamic_name'):
         run_shard(['dynnames'], 'quick', 0, acc)
         return {'violates': acc.d['nviol'] > 0, 'detail': acc.d['violations'][:1]}
